@@ -57,3 +57,19 @@ __CPROVER_requires(a[0] <= 4 && a[5] <= 4 && b[0] <= 4 && b[5] <= 4)
 __CPROVER_assigns(*enc)
 __CPROVER_ensures((RET != 0) == (VEQ(a, b, 0) && VEQ(a, b, 5)))
 __CPROVER_ensures(*enc == 2 + (size_t)a[0] + (size_t)a[5]);
+
+/* Coin / PublicationData: decode(encode(x)) == x, estimateSize == encoded size (asserted in the wrapper), encoded size by format */
+#define TRIMLEN(v) ((int64_t)(v) < 0 ? 8 : (uint64_t)(v) < (1UL << 8) ? 1 : (uint64_t)(v) < (1UL << 16) ? 2 : (uint64_t)(v) < (1UL << 24) ? 3 : \
+                    (uint64_t)(v) < (1UL << 32) ? 4 : (uint64_t)(v) < (1UL << 40) ? 5 : (uint64_t)(v) < (1UL << 48) ? 6 : (uint64_t)(v) < (1UL << 56) ? 7 : 8)
+int w_coin_c(int64_t units, int64_t* back, size_t* enc)
+__CPROVER_requires(__CPROVER_is_fresh(back, 8) && __CPROVER_is_fresh(enc, sizeof(size_t)))
+__CPROVER_assigns(*back, *enc)
+__CPROVER_ensures(RET != 0 && *back == units && *enc == 1 + TRIMLEN(units));
+#define FEQ(a, b, o) ((a)[o] == (b)[o] && ((a)[o] < 1 || (a)[(o) + 1] == (b)[(o) + 1]) && ((a)[o] < 2 || (a)[(o) + 2] == (b)[(o) + 2]) && ((a)[o] < 3 || (a)[(o) + 3] == (b)[(o) + 3]))
+int w_pubdata_c(int64_t id, const uint8_t* f, int64_t* back_id, uint8_t* back, size_t* enc)
+__CPROVER_requires(__CPROVER_is_fresh(f, 12) && __CPROVER_is_fresh(back_id, 8) && __CPROVER_is_fresh(back, 12) && __CPROVER_is_fresh(enc, sizeof(size_t)))
+__CPROVER_requires(f[0] <= 3 && f[4] <= 3 && f[8] <= 3)
+__CPROVER_assigns(*back_id, __CPROVER_object_whole(back), *enc)
+__CPROVER_ensures(RET != 0 && *back_id == id && FEQ(back, f, 0) && FEQ(back, f, 4) && FEQ(back, f, 8))
+/* [id: single BE value][header: var-len][context: var-len][payout: var-len]; a var-len value of n <= 3 bytes takes 2 + n bytes */
+__CPROVER_ensures(*enc == 1 + TRIMLEN(id) + (2 + (size_t)f[0]) + (2 + (size_t)f[4]) + (2 + (size_t)f[8]));
